@@ -25,6 +25,14 @@
        7 dir wait                the connection is closed, a new one is made below the
                                  host (dir 0 dialer's swarm dials, 1 listener dials);
                                  wait 0: the next op races identify         obs MUX SCOPE
+       9 n (mode m r_1..r_m)^n   n NewStream(r) whose context does not allow the limited connection
+                                 are parked in this order until a direct connection exists; mode bit5:
+                                 the open's context ends while it is parked (before the next one of
+                                 those ends; the others are within their deadline); then the listener
+                                 dials the dialer directly; obtained streams are closed (op 6) and the
+                                 direct connection is closed again before the next op
+            obs MUX (res dp use h lp ninv hreg hlp)^n  u (reg lp)^u  KNOW SCOPE
+                                 (MUX: what the listener advertises when the direct connection appears)
      MUX   = k p_1..p_k   listener Mux().Protocols() within the universe, in order
      KNOW  = k q_1..q_k   dialer's knowledge about the listener, sorted
      SCOPE = outD_0..outD_{U-1} inL_0..inL_{U-1}  protocol-scope Stat(): streams
@@ -147,6 +155,13 @@ Fixpoint slots_of (n : Z) (rs : list ores) : list (Z * Z) :=
   | r :: rest => if obtained r then (n, o_dp r) :: slots_of (n + 1) rest else slots_of n rest
   end.
 
+(* parked opens, as the property sees them: an open that is still within its
+   deadline when a connection it may use appears is an open that has such a
+   connection (no excuse (c)); an open whose context ended while the only
+   connection was the limited one is excused by (c) *)
+Definition park_view (popens : list (bool * oreq)) : list oreq :=
+  map (fun x => let q := snd x in mkReq (q_reqs q) (q_extra q) (q_race q) (negb (fst x))) popens.
+
 (* one monitored step: None = the observation violates the property *)
 Definition mon_step (U : Z) (has_scope : bool) (c : cfg) (m : mon) (o : op) (x : obs)
   : option mon :=
@@ -182,6 +197,14 @@ Definition mon_step (U : Z) (has_scope : bool) (c : cfg) (m : mon) (o : op) (x :
          identify delivers on it = what the listener advertises now (observed);
          older knowledge is no excuse any more *)
       Some (mkM (m_live m) (m_nreg m) mx (if has_scope then sc' else m_sc m) [] (m_nslot m))
+  | OPark popens, ObPark mx rs un kn' sc' =>
+      (* a fresh (direct) connection, as above: what the dialer knows is what the
+         listener advertises now; every clause of a batch applies to the parked opens *)
+      let m0 := mkM (m_live m) (m_nreg m) mx (m_sc m) (m_held m) (m_nslot m) in
+      if batch_ok U has_scope c m0 (park_view popens) rs un sc'
+      then Some (mkM (m_live m) (m_nreg m) kn' (if has_scope then sc' else m_sc m)
+                     (m_held m ++ slots_of (m_nslot m) rs) (m_nslot m + count_if obtained rs))
+      else None
   | _, _ => None
   end.
 
@@ -217,6 +240,24 @@ Fixpoint take_reqs (n : nat) (l : list Z) : option (list oreq * list Z) :=
           | Some (q, r) =>
               match take_reqs k r with
               | Some (qs, r') => Some (mkReq q [] false (Z.testbit mode 0) :: qs, r')
+              | None => None
+              end
+          | None => None
+          end
+      | [] => None
+      end
+  end.
+
+Fixpoint take_preqs (n : nat) (l : list Z) : option (list (bool * oreq) * list Z) :=
+  match n with
+  | O => Some ([], l)
+  | S k =>
+      match l with
+      | mode :: l' =>
+          match take_list l' with
+          | Some (q, r) =>
+              match take_preqs k r with
+              | Some (qs, r') => Some ((Z.testbit mode 5, mkReq q [] false (Z.testbit mode 0)) :: qs, r')
               | None => None
               end
           | None => None
@@ -317,6 +358,39 @@ Fixpoint decode_ops (U : Z) (l : list Z) (fuel : nat) : option (list (op * obs))
                 end
             | None => None
             end
+        | None => None
+        end
+    | 9 :: n :: r =>
+        if (n <? 0) || (zlen r <? n) then None else
+        match take_preqs (Z.to_nat n) r with
+        | Some (qs, r00) =>
+          match take_list r00 with
+          | Some (mx, r0) =>
+            match take_ores (Z.to_nat n) r0 with
+            | Some (rs, r1) =>
+                match r1 with
+                | u :: r2 =>
+                    if (u <? 0) || (zlen r2 <? u) then None else
+                    match take_pairs (Z.to_nat u) r2 with
+                    | Some (un, r3) =>
+                        match take_list r3 with
+                        | Some (kn, r4) =>
+                            match take_n (2 * U) r4 with
+                            | Some (sc, r5) =>
+                                option_map (cons (OPark qs, ObPark mx rs un kn sc))
+                                           (decode_ops U r5 f)
+                            | None => None
+                            end
+                        | None => None
+                        end
+                    | None => None
+                    end
+                | [] => None
+                end
+            | None => None
+            end
+          | None => None
+          end
         | None => None
         end
     | 6 :: slot :: how :: r =>
@@ -430,6 +504,10 @@ Definition obs_eqb (has_scope : bool) (m x : obs) : bool :=
   | ObClose sc, ObClose sc' => negb has_scope || zlist_eqb sc sc'
   | ObRelabel a b c, ObRelabel a' b' c' => (a =? a') && (b =? b') && (c =? c')
   | ObRe mx sc, ObRe mx' sc' => zlist_eqb mx mx' && (negb has_scope || zlist_eqb sc sc')
+  | ObPark mx rs un kn sc, ObPark mx' rs' un' kn' sc' =>
+      zlist_eqb mx mx' &&
+      list_eqb ores_eqb rs rs' && list_eqb pair_eqb (sort_pairs un) (sort_pairs un') &&
+      zlist_eqb kn kn' && (negb has_scope || zlist_eqb sc sc')
   | _, _ => false
   end.
 
@@ -443,6 +521,9 @@ Definition obs_code (x : obs) : list Z :=
   | ObClose sc => 4 :: sc
   | ObRelabel a b c => [6; a; b; c]
   | ObRe mx sc => 5 :: mx ++ [-1] ++ sc
+  | ObPark mx rs un kn sc =>
+      7 :: mx ++ [-1] ++ flat_map (fun r => [o_res r; o_dp r; o_use r; o_h r; o_lp r; o_ninv r]) rs
+        ++ [-1] ++ flat_map (fun p => [fst p; snd p]) un ++ [-1] ++ kn ++ [-1] ++ sc
   end.
 
 Fixpoint conform_run (h : header) (s : st) (i : Z) (tr : list (op * obs)) : list Z :=
@@ -454,6 +535,11 @@ Fixpoint conform_run (h : header) (s : st) (i : Z) (tr : list (op * obs)) : list
         | OBatch opens, ObBatch rs _ _ _ =>
             OBatch (find_hints (hd_cfg h) (tbl s) (know s)
                                (mkB (outD s) (inL s) [] (held s) (nslot s)) rs opens rs)
+        | OPark popens, ObPark _ rs _ _ _ =>
+            (* the same search; the hints go back under the flags (park_batch sets q_allow itself) *)
+            OPark (combine (map fst popens)
+                           (find_hints (hd_cfg h) (tbl s) (mux_protocols (tbl s))
+                                       (mkB (outD s) (inL s) [] (held s) (nslot s)) rs (park_batch popens) rs))
         | _, _ => o
         end in
       let '(s', mx) := step_i (hd_U h) (hd_cfg h) s o' in
